@@ -323,6 +323,24 @@ def gen_dens(ctx, count):
     return cases
 
 
+def gen_det(ctx, count):
+    rng = ctx.rng
+    cases = []
+    for i in range(count):
+        if rng.random() < 0.3:
+            spec = gen_prior_message(rng)
+            while spec["ctor"] == "gaussian_prior":
+                spec = gen_prior_message(rng)
+            if spec["ctor"] == "log_gaussian_prior":
+                spec["b"] = hx(rng.choice([0.25, 0.5, 0.75, 1.0, 1.5]))
+        else:
+            tkind = rng.choice(STACKS)
+            spec = gen_message(rng, "normal", True, 1, 5000, tkind, gen_stack(rng, tkind))
+            spec["params"] = [[hx(dy(rng, -1, 1))], [hx(rng.choice([0.25, 0.5, 0.75, 1.0]))]]
+        cases.append({"kind": "det", "msg": spec, "q": [rng.uniform(0.1, 0.9) for _ in range(3)]})
+    return cases
+
+
 # ---------------------------------------------------------------------------
 # independent arithmetic used by the oracle (never calls the model or the code)
 # ---------------------------------------------------------------------------
@@ -708,6 +726,24 @@ def oracle_dens(c, res):
     return out
 
 
+def oracle_det(c, res):
+    out = []
+    for x, ld, fd, fac, lp in zip(res["points"], res["logd"], res["fd_logd"], res["factor"], res["base_lp"]):
+        ld, fd, fac, lp = unhex(ld), unhex(fd), unhex(fac), unhex(lp)
+        if not close(ld, fd, 1e-5 * max(1.0, abs(fd))):
+            out.append(("logdet", "log-determinant %r at x = %r, but log of the slope of the transform is %r" % (ld, unhex(x), fd)))
+        if not close(fac, lp + ld, 1e-12 * max(1.0, abs(lp), abs(ld))):
+            out.append(("factor", "factor(x) = %r is not base.logpdf(T x) + logd = %r" % (fac, lp + ld)))
+    return out
+
+
+def coq_det(c, res):
+    st = clist([c_transform(t) for t in res["desc"]["t"]["stack"]])
+    tabs = c_tabs(res["tabs"])
+    return ["CDet %s %s %s %s %s %s %s" % (tabs, st, cf(x), cf(lp), cf(y), cf(ld), cf(fac))
+            for x, lp, y, ld, fac in zip(res["points"], res["base_lp"], res["y"], res["logd"], res["factor"])]
+
+
 # ---------------------------------------------------------------------------
 # Coq printing
 # ---------------------------------------------------------------------------
@@ -761,7 +797,8 @@ def c_expr(e):
 def c_tabs(t):
     t1 = lambda rows: clist([cpair(cf(k), cf(v)) for k, v in rows])  # noqa
     ib = clist(["(%s, %s, (%s, %s))" % (cf(a), cf(b), cf(x), cf(y)) for a, b, x, y in t["ib"]])
-    return "(mktabs %s %s %s %s %s %s)" % (t1(t["sq"]), t1(t["log"]), t1(t["exp"]), t1(t["log1p"]), t1(t["ipl"]), ib)
+    return "(mktabs %s %s %s %s %s %s %s %s %s)" % (t1(t["sq"]), t1(t["log"]), t1(t["exp"]), t1(t["log1p"]), t1(t["ipl"]), ib,
+                                                 t1(t.get("log10", [])), t1(t.get("ndtri", [])), t1(t.get("normpdf", [])))
 
 
 def env_ids(env):
@@ -887,7 +924,8 @@ def run(ctx):
         "array; base or wrapped in a uniform / log-uniform / log / log10 / shifted / log-exp transform stack, or built by a real "
         "prior) with ids, limits and log_norm, plus the abstract expressions of one algebraic law or a random expression tree; "
         "(proj) samples and log-weights projected by cls.project / TransformedMessage.project; (dens) a message whose reported "
-        "density is integrated numerically. A case is non-trivial unless it is the a**1 law on a fixed message or a projection "
+        "density is integrated numerically; (det) points at which _transform_det / factor of a transformed message are compared "
+        "bit for bit with the model. A case is non-trivial unless it is the a**1 law on a fixed message or a projection "
         "of fewer than 3 samples; distinct = distinct abstract input")
     ctx.trusted = [
         "Coq 8.16.1 kernel incl. vm_compute; primitive floats are kernel primitives; Reals axioms of the standard library",
@@ -895,7 +933,7 @@ def run(ctx):
         "oracle tables (C pow for x**2 on scalars, np.log, np.exp, np.log1p, invpsilog, inv_beta_suffstats) computed by the driver "
         "directly from the libraries on keys derived by an independent sequential re-computation",
         "numpy elementwise +,-,*,/,sqrt are IEEE-754 correctly rounded; np.mean over <8 contiguous items or over a non-contiguous "
-        "axis adds sequentially (measured, see DESIGN appendix D)",
+        "axis adds sequentially (measured on this platform while building the check)",
         "modelled not verified: numpy broadcasting between messages of different shapes (excluded from the generator), "
         "scipy quadrature / scipy.stats quantiles used by the numerical density oracle",
     ]
@@ -914,8 +952,8 @@ def run(ctx):
     except (OSError, IndexError):
         pass
     built = ctx.build()
-    n_alg, n_proj, n_dens = (420, 150, 70) if not thorough else (2600, 900, 320)
-    cases = gen_alg(ctx, n_alg) + gen_proj(ctx, n_proj) + gen_dens(ctx, n_dens)
+    n_alg, n_proj, n_dens, n_det = (420, 150, 60, 80) if not thorough else (2600, 900, 320, 500)
+    cases = gen_alg(ctx, n_alg) + gen_proj(ctx, n_proj) + gen_dens(ctx, n_dens) + gen_det(ctx, n_det)
     corpus_dir = os.path.join(common.VERIF, "corpus", "C17")
     if os.path.isdir(corpus_dir):
         for f in sorted(os.listdir(corpus_dir)):
@@ -963,6 +1001,11 @@ def run(ctx):
             fails += oracle_proj(c, res)
             t = coq_proj(c, res)
             if t:
+                coq_terms.append(t)
+                coq_idx.append(i)
+        elif kind == "det":
+            fails += oracle_det(c, res)
+            for t in coq_det(c, res):
                 coq_terms.append(t)
                 coq_idx.append(i)
         else:
